@@ -13,17 +13,23 @@
      formats and every output format:
        den (op_formats operands) = OP (den operands)   up to the tidy-up rule,
      and operands of unfitting shapes give an error.
-   Proved: the conversions dense<->csr (both memory orders), transpose /
-   adjoint / conj / neg / mul on csr and dense, Dense.reorder, add_dense (both
-   stride paths) with its shape guard, and the dispatcher layer: any lookup
-   entry accepted by the checker `entry_ok` computes the operation of its
-   base specialisation on denotations, so all entries of one operation agree.
-   The faithful models of four kernels contradict the statement; they carry
-   `_refuted` theorems with concrete witnesses (replayed on the
-   implementation by tools/c01.py). *)
+   Proved: the conversions dense<->csr (both memory orders), dense<->dia and
+   dia->csr, transpose / adjoint / conj / neg / mul on csr and dense,
+   Dense.reorder, add_dense (both stride paths) and add_csr (walk +
+   accumulator) with their shape guards, trace_csr / trace_dense, tidyup on
+   dense and csr, the predicates isdiag_csr and isequal_dia (as iff with the
+   denoted matrix), and the dispatcher layer: any lookup entry accepted by the
+   checker `entry_ok` computes the operation of its base specialisation on
+   denotations, so all entries of one operation agree.
+   tidyup_dense, isequal_dia and isdiag_csr follow the code after the fix
+   commits e806789, 1930127, 96e4de2; their previous rules survive as
+   old_... definitions with witness Examples.  One faithful model still
+   contradicts the statement (a Dia storing an offset twice) and carries a
+   `_refuted` theorem whose witness tools/c01.py replays on the
+   implementation. *)
 From Coq Require Import List ZArith Bool Arith Lia.
 Import ListNotations.
-From QV Require Import Model.C01 Proofs.C01 Proofs.C01_pred.
+From QV Require Import Model.C01 Proofs.C01 Proofs.C01_pred Proofs.C01_add Proofs.C01_dia.
 
 Section Props.
 Variable C : Type.
@@ -158,6 +164,180 @@ Print Assumptions C01_conj_neg_mul_dense.
 Print Assumptions C01_transpose_formats_agree.
 Print Assumptions C01_add_dense.
 Print Assumptions C01_add_dense_shape_guard.
+
+(* ---------------------------------------------------------------- add_csr *)
+(* add.pyx::add_csr(left, right, scale) for rows stored in any order: the
+   two-pointer walk with the ncols+1 sentinel, the scatter/gather accumulator,
+   the sort and the zero-dropping gather give tidy(left + scale*right) entry by
+   entry; the three fast paths (right empty or scale 0; left empty) return the
+   untidied exact sum.  C is any commutative ring (laws listed), is0 / ceqb
+   decide 0 / equality, tidy 0 = 0. *)
+Section AddCsr.
+Variable C : Type.
+Variables (c0 c1 : C) (cadd cmul : C -> C -> C).
+Variable is0 : C -> bool.
+Variable ceqb : C -> C -> bool.
+Variable tidy : C -> C.
+Hypothesis Hadd0r : forall x, cadd x c0 = x.
+Hypothesis Hadd0l : forall x, cadd c0 x = x.
+Hypothesis Haddc : forall x y, cadd x y = cadd y x.
+Hypothesis Hadda : forall x y z, cadd x (cadd y z) = cadd (cadd x y) z.
+Hypothesis Hmul0r : forall x, cmul x c0 = c0.
+Hypothesis Hmul0l : forall x, cmul c0 x = c0.
+Hypothesis Hmul1l : forall x, cmul c1 x = x.
+Hypothesis Hmulc : forall x y, cmul x y = cmul y x.
+Hypothesis His0 : forall x, is0 x = true <-> x = c0.
+Hypothesis Hceq : forall a b, ceqb a b = true <-> a = b.
+Hypothesis Htidy0 : tidy c0 = c0.
+
+Theorem C01_add_csr : forall (l r out : csr C) scale i j,
+  wf_csr C l -> wf_csr C r ->
+  add_csr C c1 cadd cmul is0 ceqb tidy l r scale = Some out ->
+  wf_csr C out /\
+  let v := cadd (den_csr C c0 l i j) (cmul scale (den_csr C c0 r i j)) in
+  (den_csr C c0 out i j = v \/ den_csr C c0 out i j = tidy v).
+Proof.
+  intros l r out scale i j Wl Wr H. split.
+  - exact (add_csr_wf C c1 cadd cmul is0 ceqb tidy l r out scale Wl Wr H).
+  - exact (add_csr_den C c0 c1 cadd cmul is0 ceqb tidy Hadd0r Hadd0l Haddc Hadda Hmul0r Hmul0l
+             Hmul1l Hmulc His0 Hceq Htidy0 l r out scale i j Wl Wr H).
+Qed.
+
+Theorem C01_add_csr_shape_guard : forall (l r : csr C) scale,
+  (s_nr C l <> s_nr C r \/ s_nc C l <> s_nc C r) ->
+  add_csr C c1 cadd cmul is0 ceqb tidy l r scale = None.
+Proof. exact (add_csr_guard C c1 cadd cmul is0 ceqb tidy). Qed.
+
+(* sum of a CSR and a dense operand through either kernel: same matrix (the
+   tidy-up of the CSR path aside) *)
+Theorem C01_add_formats_agree : forall (l r out : csr C) (dout : dense C) scale f1 f2 i j,
+  wf_csr C l -> wf_csr C r ->
+  add_csr C c1 cadd cmul is0 ceqb tidy l r scale = Some out ->
+  add_dense C c0 cadd cmul (dense_from_csr C c0 f1 l) (dense_from_csr C c0 f2 r) scale = Some dout ->
+  i < s_nr C l -> j < s_nc C l ->
+  den_csr C c0 out i j = den_dense C c0 dout i j \/
+  den_csr C c0 out i j = tidy (den_dense C c0 dout i j).
+Proof.
+  intros l r out dout scale f1 f2 i j Wl Wr H1 H2 Hi Hj.
+  pose proof (add_dense_den C c0 cadd cmul _ _ dout scale i j
+                (dense_from_csr_wf C c0 f1 l) (dense_from_csr_wf C c0 f2 r) H2 Hi Hj) as D.
+  rewrite !dense_from_csr_den in D by assumption. rewrite D.
+  exact (add_csr_den C c0 c1 cadd cmul is0 ceqb tidy Hadd0r Hadd0l Haddc Hadda Hmul0r Hmul0l
+           Hmul1l Hmulc His0 Hceq Htidy0 l r out scale i j Wl Wr H1).
+Qed.
+End AddCsr.
+Print Assumptions C01_add_csr.
+Print Assumptions C01_add_csr_shape_guard.
+Print Assumptions C01_add_formats_agree.
+
+(* non-vacuity: the Gaussian integers with the integer tidy-up satisfy every
+   hypothesis of the section, and a sum with unsorted rows, a cancellation and
+   a shared column evaluates as stated *)
+Example C01_nonvacuous_add_csr :
+  (forall x, gadd x g0 = x) /\ (forall x y, gadd x y = gadd y x) /\
+  (forall x y z, gadd x (gadd y z) = gadd (gadd x y) z) /\
+  (forall x y, gmul x y = gmul y x) /\ (forall x, gmul g1 x = x) /\
+  (forall x, gis0 x = true <-> x = g0) /\ (forall a b, geqb a b = true <-> a = b) /\
+  let l := G_csr_of_raw 2 3 [0; 2; 3] [2; 0; 1] [(1, 0); (2, 0); (0, 1)]%Z in
+  let r := G_csr_of_raw 2 3 [0; 2; 2] [0; 2] [(-2, 0); (5, 0)]%Z in
+  vO vC (G_add_csr l r (1, 0)%Z) = Some (2, 3, [0; 1; 2], [2; 1], [(6, 0); (0, 1)]%Z).
+Proof.
+  split; [intros [a b]; unfold gadd, g0; cbn [fst snd]; f_equal; lia|].
+  split; [intros [a b] [c d]; unfold gadd; cbn [fst snd]; f_equal; lia|].
+  split; [intros [a b] [c d] [e f]; unfold gadd; cbn [fst snd]; f_equal; lia|].
+  split; [intros [a b] [c d]; unfold gmul; cbn [fst snd]; f_equal; lia|].
+  split; [intros [a b]; unfold gmul, g1; cbn [fst snd]; f_equal; lia|].
+  split.
+  { intros [a b]. unfold gis0, g0. simpl. split.
+    - intros H. f_equal; lia.
+    - intros H. injection H as -> ->. reflexivity. }
+  split.
+  { intros [a b] [c d]. unfold geqb. simpl. split.
+    - intros H. f_equal; lia.
+    - intros H. injection H as -> ->. lia. }
+  vm_compute. reflexivity.
+Qed.
+
+(* ------------------------------------------- Dia conversions and trace *)
+Section DiaTrace.
+Variable C : Type.
+Variable c0 : C.
+Variable cadd : C -> C -> C.
+Variable is0 : C -> bool.
+Variable small : C -> bool.
+Hypothesis Hadd0r : forall x, cadd x c0 = x.
+Hypothesis Hadd0l : forall x, cadd c0 x = x.
+Hypothesis Hadda : forall x y z, cadd x (cadd y z) = cadd (cadd x y) z.
+Hypothesis His0 : forall x, is0 x = true <-> x = c0.
+
+(* Dia -> Dense (dense.from_dia = Dense(to_array())): by construction of
+   den_dia this is the matrix to_array returns, for any stored offsets,
+   including slots outside the matrix (ignored) *)
+Theorem C01_dense_from_dia_exact : forall (a : dia C) i j,
+  den_dense C c0 (dense_from_dia C c0 a) i j = den_dia C c0 a i j.
+Proof. exact (dense_from_dia_den C c0). Qed.
+
+(* Dense -> Dia (dia.from_dense before its tidy-up), either memory order,
+   any rectangular shape: the nr+nc-1 diagonals with the index arithmetic
+   (col - row + nr - 1) * nc + col hold every entry *)
+Theorem C01_dia_from_dense_exact : forall (d : dense C) i j,
+  wf_dia C (dia_from_dense_full C c0 d) /\
+  den_dia C c0 (dia_from_dense_full C c0 d) i j = den_dense C c0 d i j.
+Proof. intros. split; [apply dia_from_dense_wf|apply dia_from_dense_den]. Qed.
+
+(* Dia -> CSR (csr.from_dia -> from_coo_pointers with scatter/gather): for
+   distinct stored offsets (any order, diagonals partly outside, explicit
+   zeros) no entry changes *)
+Theorem C01_csr_from_dia_exact : forall (a : dia C) i j, wf_dia C a ->
+  den_csr C c0 (csr_from_dia C c0 cadd is0 a) i j = den_dia C c0 a i j.
+Proof. exact (csr_from_dia_den C c0 cadd is0 Hadd0r Hadd0l Hadda His0). Qed.
+
+(* chain Dense -> Dia -> CSR = the matrix; with the direct Dense -> CSR
+   conversion this makes the three formats agree *)
+Theorem C01_dense_dia_csr_chain : forall (d : dense C) i j,
+  den_csr C c0 (csr_from_dia C c0 cadd is0 (dia_from_dense_full C c0 d)) i j = den_dense C c0 d i j.
+Proof.
+  intros d i j. rewrite C01_csr_from_dia_exact by apply dia_from_dense_wf.
+  apply dia_from_dense_den.
+Qed.
+
+(* trace kernels: the sum of the diagonal of the denoted matrix; non-square
+   operands are refused *)
+Theorem C01_trace_csr : forall (m : csr C), wf_csr C m ->
+  trace_csr C c0 cadd m =
+  if s_nr C m =? s_nc C m
+  then Some (diag_sum C c0 cadd (fun k => den_csr C c0 m k k) 0 (s_nr C m)) else None.
+Proof. intros m [H _]. apply trace_csr_spec. exact H. Qed.
+
+Theorem C01_trace_dense : forall (d : dense C),
+  trace_dense C c0 cadd d =
+  if d_nr C d =? d_nc C d
+  then Some (diag_sum C c0 cadd (fun k => den_dense C c0 d k k) 0 (d_nr C d)) else None.
+Proof. exact (trace_dense_spec C c0 cadd). Qed.
+
+Theorem C01_trace_formats_agree : forall (d : dense C),
+  (forall x, small x = true -> x = c0) ->
+  trace_csr C c0 cadd (csr_from_dense C c0 small d) = trace_dense C c0 cadd d.
+Proof. exact (trace_formats_agree C c0 cadd small). Qed.
+End DiaTrace.
+Print Assumptions C01_dense_from_dia_exact.
+Print Assumptions C01_dia_from_dense_exact.
+Print Assumptions C01_csr_from_dia_exact.
+Print Assumptions C01_dense_dia_csr_chain.
+Print Assumptions C01_trace_csr.
+Print Assumptions C01_trace_dense.
+Print Assumptions C01_trace_formats_agree.
+
+(* non-vacuity: a 2x3 Dia with unsorted offsets, a diagonal partly outside
+   and garbage in an outside slot is wf_dia and converts as stated *)
+Example C01_nonvacuous_wf_dia :
+  let a := mkA 2 3 [(2, [(9, 9); (0, 0); (4, 0)]); (-1, [(0, 1); (7, 7); (7, 7)])]%Z in
+  wf_dia G a /\ vC (G_csr_from_dia a) = (2, 3, [0; 1; 2], [2; 0], [(4, 0); (0, 1)]%Z).
+Proof.
+  split; [|vm_compute; reflexivity]. split; simpl.
+  - repeat constructor; simpl; intuition lia.
+  - intros d [<-|[<-|[]]]; reflexivity.
+Qed.
 
 (* ----------------------------------------------------------- dispatcher *)
 (* V = data-layer objects, ty = their concrete type, den = the matrix they
